@@ -28,6 +28,13 @@ ASSUMPTIONS = [
 
 
 MUTANTS = [
+    ("membership test skips level 1", "AegeanTools/regions.py",
+     "        pixelset = self.get_demoted()\n"
+     "        result = np.isin(pix, list(pixelset))\n",
+     "        result = np.zeros(len(pix), dtype=bool)\n"
+     "        for d in range(2, self.maxdepth+1):\n"
+     "            result |= np.isin(pix >> 2*(self.maxdepth-d),\n"
+     "                              list(self.pixeldict[d]))\n", "C11-R8"),
     ("membership look-up array kept between queries",
      "AegeanTools/regions.py",
      "        pixelset = self.get_demoted()\n"
@@ -292,6 +299,8 @@ def run(ctx):
     from .c08 import demotion_levels, r12_derived
     demotion_levels(ctx, region_methods(prog), "C11-R6")
     r12_derived(ctx, region_methods(prog), "C11-R7")
+    from .c09 import membership_for
+    membership_for(ctx, prog, region_methods(prog), "C11-R8")
     # ---------------------------------------------------------------- R5
     nl = link.check(ctx, ["source_finder.find_islands",
                           "regions.Region.sky_within", "regions.Region.load"],
